@@ -506,10 +506,12 @@ type exits struct {
 	blocks map[*ssa.BasicBlock]bool // return blocks that are success regardless of pred
 	edges  map[edge]bool            // success only when entered over this edge
 	rets   int
+	idx    int    // which result says success / failure
+	kind   string // "error" | "bool"
 }
 
 func successExits(f *ssa.Function, spec resultSpec) exits {
-	ex := exits{blocks: map[*ssa.BasicBlock]bool{}, edges: map[edge]bool{}}
+	ex := exits{blocks: map[*ssa.BasicBlock]bool{}, edges: map[edge]bool{}, idx: spec.idx, kind: spec.kind}
 	for _, b := range f.Blocks {
 		if len(b.Instrs) == 0 {
 			continue
@@ -548,6 +550,14 @@ func canReachSuccess(from *ssa.BasicBlock, in *edge, ex exits, cut map[edge]bool
 	seen := reach([]*ssa.BasicBlock{from}, cut)
 	for b := range seen {
 		if ex.blocks[b] {
+			// a boolean result that the current assumptions (condEval) decide to be false is not a success
+			if ex.kind == "bool" && condEval != nil {
+				if ret, ok := b.Instrs[len(b.Instrs)-1].(*ssa.Return); ok && ex.idx < len(ret.Results) {
+					if v, known := boolOf(unspill(ret.Results[ex.idx])); known && !v {
+						continue
+					}
+				}
+			}
 			return true, b
 		}
 	}
